@@ -149,6 +149,27 @@ def run(m, rep, tier):
     rep.assumptions += ['user code is outside the model: only library functions are checked for bitwise copies']
     rep.extra['guarded_field_accesses'] = nacc
 
+    # ---- G6: in a helper that takes two guarded pointers, the source is tested before the destination is stamped ----
+    # copy(dst, src) may be handed the same object twice: a stamp written first turns a stray copy into a "valid" object
+    # before its guard is looked at
+    from .util import floc
+    g6 = rep.rule('G6', 'cstl_guarded_ptr_copy tests the source\'s self-address before it writes anything into the destination', floor=1)
+    f6 = m.ifn('cstl_guarded_ptr_copy')
+    if f6 is None:
+        g6.undecided('cstl_guarded_ptr_copy', 'not in the inlined model')
+    else:
+        tests = [i for i in f6.all_insts() if i.op == 'load' and resolve_addr(f6, i.o[0]).root == '$1' and gp_field(resolve_addr(f6, i.o[0])) == 'self']
+        writes = [s2 for s2 in f6.all_insts() if s2.op == 'store' and resolve_addr(f6, s2.o[1]).root == '$0']
+        if not tests or not writes:
+            g6.undecided('cstl_guarded_ptr_copy', 'self-address read of the source / stores into the destination not found', floc(m, f6))
+        else:
+            early = [s2 for s2 in writes if not any(f6.dominates(t, s2) for t in tests)]
+            if early:
+                g6.violation('cstl_guarded_ptr_copy', 'the destination is written at %s before the source\'s self-address was read: when both arguments are the same '
+                             '(stray) object the stamp makes the test pass' % early[0].loc(), floc(m, f6), {})
+            else:
+                g6.ok('cstl_guarded_ptr_copy', 'source tested first, then %d store(s) into the destination' % len(writes), floc(m, f6))
+
 
 def _gp_object(f, addr_ref):
     """the pointer to the struct cstl_guarded_ptr whose field `addr_ref` addresses (un-cast), else None"""
